@@ -1,20 +1,20 @@
 # run parameters and manifest texts of the C09 check (read by ../props.py)
-PROP = dict(
-    engine="stack", test="TestC09", level="exploration",
-    quick=dict(checks=200, shards=14, timeout=1500),
-    thorough=dict(checks=700, shards=14, timeout=3400),
-    rule="one shutdown episode per case: runtime {exits on TERM, ignores TERM, already exited; never started when an extension does not "
-         "register or fails to launch} x each of 0-2 extensions {SHUTDOWN-subscribed and exits on the event / ignores it / ignores it and "
-         "keeps polling / never polls; unsubscribed; never registers; already exited; fails to launch} x trigger {timeout reset, failure "
-         "reset (2000 ms), explicit reset 300/800 ms, shutdown 800 ms} x exit-notification delay {0, 200 ms, 2300 ms} of one process. "
-         "The thorough tier enumerates the product for 0-1 extensions. Oracle on the supervisor log with timestamps: no extension -> "
-         "runtime killed without TERM; else TERM first and KILL only if alive, not before 30% of the allowance; exactly one SHUTDOWN event "
-         "with reason and deadline per subscribed polling extension; those are killed at their deadline and not before; unsubscribed ones "
-         "killed without event; the operation returns after every process died and its notification was delivered (or 2 s grace), within "
-         "allowance + 2 s + slack. Non-trivial: >=1 extension and a process that does not exit voluntarily.",
-    assumptions=["fake process supervisor (DESIGN 3.4)", "lower time bounds carry 60 ms tolerance for the anchor, upper bounds 1 s slack"],
-    level_text="random search plus (thorough) enumeration of the behaviour product for one shutdown episode against the real orchestrator, "
-               "judged on the ordered, timestamped supervisor log.",
-    level_note="one episode per scenario; unkillable processes and the 9 s supervisor bound are not modelled",
-    technique="property-based testing (rapid) + fault enumeration: generated process behaviours, ordered-log oracle with one-sided time bounds",
-)
+PROP = {'engine': 'stack',
+ 'test': 'TestC09',
+ 'level': 'exploration',
+ 'quick': {'checks': 200, 'shards': 14, 'timeout': 1500},
+ 'thorough': {'checks': 2000, 'shards': 14, 'timeout': 3400},
+ 'rule': 'one shutdown episode per case: runtime {exits on TERM, ignores TERM, already exited; never started when an extension does not register or '
+         'fails to launch} x each of 0-2 extensions {SHUTDOWN-subscribed and exits on the event / ignores it / ignores it and keeps polling / never '
+         'polls; unsubscribed; never registers; already exited; fails to launch} x trigger {timeout reset, failure reset (2000 ms), explicit reset '
+         '300/800 ms, shutdown 800 ms} x exit-notification delay {0, 200 ms, 2300 ms} of one process. The thorough tier enumerates the product for '
+         '0-1 extensions. Oracle on the supervisor log with timestamps: no extension -> runtime killed without TERM; else TERM first and KILL only '
+         'if alive, not before 30% of the allowance; exactly one SHUTDOWN event with reason and deadline per subscribed polling extension; those are '
+         'killed at their deadline and not before; unsubscribed ones killed without event; the operation returns after every process died and its '
+         'notification was delivered (or 2 s grace), within allowance + 2 s + slack. Non-trivial: >=1 extension and a process that does not exit '
+         'voluntarily.',
+ 'assumptions': ['fake process supervisor (DESIGN 3.4)', 'lower time bounds carry 60 ms tolerance for the anchor, upper bounds 1 s slack'],
+ 'level_text': 'random search plus (thorough) enumeration of the behaviour product for one shutdown episode against the real orchestrator, judged on '
+               'the ordered, timestamped supervisor log.',
+ 'level_note': 'one episode per scenario; unkillable processes and the 9 s supervisor bound are not modelled',
+ 'technique': 'property-based testing (rapid) + fault enumeration: generated process behaviours, ordered-log oracle with one-sided time bounds'}
